@@ -96,6 +96,14 @@ pub fn vcheck(what: &str, c: bool) {
     }
 }
 
+/// Postcondition of a function whose `kani::ensures` contract is being proved
+/// by `proof_for_contract`: Kani checks the spliced contract itself, so this is a
+/// no-op there; the native replay evaluates it on the concrete counterexample.
+pub fn vpost<F: FnOnce() -> bool>(what: &str, c: F) {
+    #[cfg(not(kani))]
+    vcheck(what, c());
+}
+
 /// Reachability guard: must be SATISFIED under Kani (vacuity check).
 pub fn vcover() {
     #[cfg(kani)]
